@@ -7,7 +7,15 @@ import math
 
 from harness import core
 
-MODES = {'off': None, 'feature': 'feature', 'hidden': 'hidden'}
+class _Modes(dict):
+    """mode names as a user's program has them: strings built at run time (argparse / JSON / YAML values), equal to
+    but not the same object as the literals in the library's source"""
+    def __getitem__(self, k):
+        v = dict.__getitem__(self, k)
+        return None if v is None else bytes(v, 'ascii').decode('ascii')
+
+
+MODES = _Modes({'off': None, 'feature': 'feature', 'hidden': 'hidden'})
 
 
 def fbits(v):
